@@ -1523,4 +1523,115 @@ example : WF demoKids ∧ (0 : Rat) < 1 ∧ (∀ e, e.time < (3 : Rat) → ∀ c
   · intro e _; unfold demoKids; split <;> simp
   · exact inv_addAll inv_init _ (by decide +kernel)
 
+/-! ### Re-entrancy: a callback that calls `evolve_until` itself (round 6)
+
+`loopR` / `evolveUntilR` (Model/SchedulerRef.lean) is the loop with callbacks whose body is "schedule
+`pre`, call `evolve_until(T2)`, schedule `post`"; the driver op `evolver` executes it against the real
+object driven by re-entering callbacks.  The statement of C20 quantifies over callbacks that *schedule*
+further callbacks; a callback that *evolves* the system is outside that quantifier.  What the code
+does with it: tiling and the lower clock bound survive unconditionally, "the clock ends at T" holds
+exactly when no nested target exceeds the outer one, and fails otherwise. -/
+
+/-- **Bridge**: with callbacks that never re-enter, the re-entrant loop is `loop` — the object of
+every theorem above — as a function. -/
+theorem reentrant_plain_is_loop (kids : Entry → List (Rat × Nat)) (fuel : Nat) (s : Sys) (T : Rat) :
+    evolveUntilR (plainBody kids) fuel s T = evolveUntil kids fuel s T := by
+  unfold evolveUntilR evolveUntil; rw [loopR_plain']
+
+/-- **Tiling survives re-entrancy**: for every callback behaviour (nested targets of any size, at any
+depth), fuel and status, the intervals integrated by the outer call and all nested calls together add
+up to the movement of the clock. -/
+theorem reentrant_tiling (acts : Entry → Body) (fuel : Nat) (s : Sys) (T : Rat) :
+    sumDt (evolveUntilR acts fuel s T).trace = (evolveUntilR acts fuel s T).s.t - s.t := by
+  unfold evolveUntilR; split
+  · simp [sumDt]
+  · exact loopR_tiles' acts T fuel s
+
+/-- **The clock ends at T when no callback evolves beyond T**: a call that returns leaves the clock in
+`[T - eps, T]` provided every nested target is at most the outer target (the lower bound needs no
+hypothesis at all). -/
+theorem reentrant_clock_end (acts : Entry → Body) (fuel : Nat) (s : Sys) (T : Rat)
+    (hB : ∀ e T2, (acts e).nested = some T2 → T2 ≤ T)
+    (hok : (evolveUntilR acts fuel s T).status = .ok) :
+    T - eps ≤ (evolveUntilR acts fuel s T).s.t ∧ (evolveUntilR acts fuel s T).s.t ≤ T := by
+  unfold evolveUntilR at hok ⊢
+  by_cases hT : T < s.t
+  · simp [hT] at hok
+  · simp only [hT, if_false] at hok ⊢
+    exact ⟨loopR_clock_ge' acts T fuel s hok, loopR_clock_le' acts T hB T fuel s (le_refl _) (not_lt.mp hT)⟩
+
+/-- the lower half without any hypothesis on the nested targets -/
+theorem reentrant_clock_end_lower (acts : Entry → Body) (fuel : Nat) (s : Sys) (T : Rat)
+    (hok : (evolveUntilR acts fuel s T).status = .ok) : T - eps ≤ (evolveUntilR acts fuel s T).s.t := by
+  unfold evolveUntilR at hok ⊢
+  by_cases hT : T < s.t
+  · simp [hT] at hok
+  · simp only [hT, if_false] at hok ⊢
+    exact loopR_clock_ge' acts T fuel s hok
+
+/-- the callback with id 0 calls `evolve_until(3)`; nobody else re-enters -/
+def reentDemo (e : Entry) : Body := if e.id = 0 then ⟨[], some 3, []⟩ else ⟨[], none, []⟩
+
+example : (∀ e T2, (reentDemo e).nested = some T2 → T2 ≤ (3 : Rat)) ∧
+    (evolveUntilR reentDemo 10 (addCallback init 1 0) 3).status = .ok := by
+  refine ⟨?_, by decide +kernel⟩
+  intro e T2 h; unfold reentDemo at h; split at h <;> simp at h; rw [← h]
+
+/-- **A nested call to a later target breaks "the clock ends at T"** (and runs callbacks that are not
+due before T): `add_callback(1, f)` with `f` calling `evolve_until(3)`, `add_callback(5/2, g)`,
+`evolve_until(9/4)` returns normally with the clock at 3 and `g` executed.  Observed on the real
+code (harness style `reent`); the hypothesis of `reentrant_clock_end` cannot be dropped. -/
+theorem reentrant_later_target_overshoots :
+    (evolveUntilR reentDemo 10 (addCallback (addCallback init 1 0) (5/2) 1) (9/4)).status = .ok ∧
+    (evolveUntilR reentDemo 10 (addCallback (addCallback init 1 0) (5/2) 1) (9/4)).s.t = 3 ∧
+    fired (evolveUntilR reentDemo 10 (addCallback (addCallback init 1 0) (5/2) 1) (9/4)).trace =
+      [⟨1, 0, 0⟩, ⟨5/2, 1, 1⟩] := by
+  decide +kernel
+
+/-! ### Raising at once with clock-relative children (round 6) -/
+
+/-- **Bridge**: with callbacks that do not look at the clock, `loopXC` is `loopX` (the object of
+`raise_eq_fuel_out`, `raise_entry_lost`). -/
+theorem loopXC_entry_only (kids : Entry → List (Rat × Nat)) (raises : Entry → Bool) (T : Rat)
+    (fuel : Nat) (s : Sys) : loopXC (fun _ => kids) raises T fuel s = loopX kids raises T fuel s :=
+  loopXC_entry_only' kids raises T fuel s
+
+/-- **The state after an exception, exactly, for callbacks that read the clock** (`self.t + period`):
+the run up to the raising entry `e` is the `loopC` run whose fuel runs out at that callback, with the
+callback of `e` scheduling nothing.  `loopC` runs are `loop` runs (`loopC_eq_loop_table`), so every
+hypothesis-free theorem of this file and the `clockC_*` theorems hold of the interrupted run. -/
+theorem raise_eq_fuel_out_clock (kidsC : Rat → Entry → List (Rat × Nat)) (raises : Entry → Bool) (T : Rat)
+    (fuel : Nat) (s : Sys) (e : Entry) (h : (loopXC kidsC raises T fuel s).raisedAt = some e) :
+    raises e = true ∧
+    (loopXC kidsC raises T fuel s).run =
+      loopC (kidsExceptC kidsC e) T (fired (loopXC kidsC raises T fuel s).run.trace).length s :=
+  ⟨loopXC_raisedAt_raises kidsC raises T fuel s e h, loopXC_raise_eq_loopC' kidsC raises T fuel s e h⟩
+
+example : (loopXC (fun clk _ => [(clk + 1, 0)]) (fun e => e.ctr == 1) 5 10
+    (addCallback init 1 0)).raisedAt = some ⟨2, 1, 0⟩ := by decide +kernel
+
+/-! ### Termination of the zero-delay DAG class with a concrete weight (round 6) -/
+
+/-- **Callbacks that schedule only callbacks of strictly larger id terminate, whatever the delays**
+(zero, below the coalescing window, negative): if every callback due before the horizon schedules at
+most `B` children, all with ids above its own and below `N`, the loop returns for every fuel above
+`Σ_{q queued} (B+1)^(N - q.id)` — the concrete weight `dagWeight` for `terminates_of_weight`.  This is
+the class the harness generates for same-instant children (styles ties/coalesce/mixed/negkids). -/
+theorem terminates_if_dag {kids : Entry → List (Rat × Nat)} {T : Rat} {B N : Nat}
+    (hB : ∀ e, e.time < T → (kids e).length ≤ B)
+    (hdag : ∀ e, e.time < T → ∀ c ∈ kids e, e.id < c.2 ∧ c.2 < N) (s : Sys) :
+    ∀ fuel, potential (dagWeight B N) s.queue < fuel → (loop kids T fuel s).status = .ok :=
+  terminates_of_weight (dagWeight B N) (dag_weight hB hdag) s
+
+/-- id 0 schedules id 1 for the same instant and id 2 half a unit *earlier*; nobody else schedules -/
+def dagDemo (e : Entry) : List (Rat × Nat) := if e.id = 0 then [(e.time, 1), (e.time - 1/2, 2)] else []
+
+example : (∀ e, e.time < (3 : Rat) → (dagDemo e).length ≤ 2) ∧
+    (∀ e, e.time < (3 : Rat) → ∀ c ∈ dagDemo e, e.id < c.2 ∧ c.2 < 3) := by
+  constructor
+  · intro e _; unfold dagDemo; split <;> simp
+  · intro e _ c hc; unfold dagDemo at hc; split at hc
+    · simp at hc; rcases hc with rfl | rfl <;> simp <;> omega
+    · simp at hc
+
 end HcipyVerif.Scheduler
